@@ -51,6 +51,10 @@ impl<'a, I: 'a, P: 'a> Iterator for Drain<'a, I, P> {
     fn next(&mut self) -> Option<(I, P)> {
         self.iter.next()
     }
+
+    fn size_hint(&self) -> (usize, Option<usize>) {
+        self.iter.size_hint()
+    }
 }
 
 impl<I, P> DoubleEndedIterator for Drain<'_, I, P> {
@@ -80,6 +84,10 @@ impl<'a, I: 'a, P: 'a> Iterator for Iter<'a, I, P> {
     fn next(&mut self) -> Option<(&'a I, &'a P)> {
         self.iter.next()
     }
+
+    fn size_hint(&self) -> (usize, Option<usize>) {
+        self.iter.size_hint()
+    }
 }
 
 impl<I, P> DoubleEndedIterator for Iter<'_, I, P> {
@@ -108,6 +116,10 @@ impl<I, P> Iterator for IntoIter<I, P> {
     type Item = (I, P);
     fn next(&mut self) -> Option<(I, P)> {
         self.iter.next()
+    }
+
+    fn size_hint(&self) -> (usize, Option<usize>) {
+        self.iter.size_hint()
     }
 }
 
